@@ -92,8 +92,7 @@ class SocketServer_ExistingConnection(object):
             # other error occurred, close the connection, but also log a warning
             ex_t, ex_v, ex_tb = sys.exc_info()
             tb = errors.format_traceback(ex_t, ex_v, ex_tb)
-            msg = "error during handleRequest: %s; %s" % (ex_v, "".join(tb))
-            log.warning(msg)
+            log.warning("error during handleRequest: %s; %s", ex_v, "".join(tb))
             return False
 
     def loop(self, loopCondition=lambda: True):
